@@ -389,3 +389,67 @@ func c11BucketOps(maxOps int) {
 	c11CheckNames("afterwards", top2, names, refs)
 	rt.Reach("end")
 }
+
+// VerifC11WriterIsolation: a second writer that arrives while a write transaction is open waits, and its arrival
+// changes nothing the open transaction has done or will do. Writer A opens a transaction and puts 0..2 entries; writer
+// B calls BeginTx (rt.Blocked: B runs up to the writer lock A holds - whatever BeginTx does before it takes the lock
+// has happened); A puts one more entry, reads its own writes, and commits or rolls back; a read-only transaction then
+// sees exactly A's entries (or none). Afterwards the lock is free again.
+func VerifC11WriterIsolation() {
+	l := c11Open()
+	tx0, err := l.BeginTx()
+	rt.Assert(err == nil, "begin")
+	top0, err := tx0.CreateTopLevelBucket("t")
+	rt.Assert(err == nil && top0 != nil, "top-level-bucket-created")
+	sb0, err := top0.NewBucket("s")
+	rt.Assert(err == nil && sb0 != nil, "sub-bucket-created")
+	rt.Assert(tx0.Commit() == nil, "commit-succeeds")
+
+	ref := &c11Ref{exists: true}
+	txA, err := l.BeginTx()
+	rt.Assert(err == nil, "begin")
+	rt.Assert(txA.TopLevelBucket("t") != nil, "committed-top-level-bucket-found")
+	topA := txA.TopLevelBucket("t").Bucket("s")
+	rt.Assert(topA != nil, "existing-bucket-found")
+	nBefore := rt.NondetLen(0, 2)
+	for i := 0; i < nBefore; i++ {
+		k, v := []byte{'a' + byte(i)}, rt.NondetBytes(1)
+		rt.Assert(topA.Put(k, v) == nil, "put-succeeds")
+		ref.put(k, v)
+	}
+	var txB db.DBTransaction
+	parked := rt.Blocked(func() { txB, _ = l.BeginTx() })
+	rt.Assert(parked, "second-writer-waits-while-a-write-transaction-is-open")
+	k, v := []byte{'z'}, rt.NondetBytes(1)
+	rt.Assert(topA.Put(k, v) == nil, "put-succeeds")
+	ref.put(k, v)
+	for _, e := range ref.es {
+		got, err := topA.Get(e.k)
+		rt.Assert(err == nil && bytes.Equal(got, e.v), "open-transaction-reads-its-own-writes")
+	}
+	commit := rt.NondetBool()
+	if commit {
+		rt.Assert(txA.Commit() == nil, "commit-succeeds")
+		rt.Reach("committed")
+	} else {
+		rt.Assert(txA.Rollback() == nil, "rollback-succeeds")
+		ref = &c11Ref{exists: true}
+		rt.Reach("rolled-back")
+	}
+	// the parked writer gets the lock now (natively; under the executor it stays parked and holds nothing)
+	rt.Join()
+	if txB != nil {
+		rt.Assert(txB.Rollback() == nil, "rollback-succeeds")
+	}
+	rtx, err := l.BeginReadTx()
+	rt.Assert(err == nil, "begin-read")
+	c11CheckBucket("isolated", rtx.TopLevelBucket("t"), "s", ref, []byte{'a'}, nil, true)
+	rt.Assert(rtx.Rollback() == nil, "read-transaction-closes")
+	// the writer lock is free again
+	var txC db.DBTransaction
+	rt.Assert(!rt.Blocked(func() { txC, _ = l.BeginTx() }) && txC != nil, "writer-lock-is-free-after-the-transaction-ended")
+	if txC != nil {
+		txC.Rollback()
+	}
+	rt.Reach("end")
+}
